@@ -5,7 +5,7 @@ from .. import adevhist, chanops, core, machist, macstage, lw, ndevhist
 ID = "C10"
 THEOREMS = ["C10_rx1_rule", "C10_window_dr_total", "C10_no_panic_in_window_config", "C10_windows_from_the_uplink",
             "C10_delays", "C10_class_c_uses_rx2", "C10_fixed_plan_pairing",
-            "C10_async_class_a_window_schedule", "C10_async_class_c_window_schedule", "C10_nb_class_a_window_schedule", "C10_schedule_premises_met", "C10_rx2_default_frequency"]
+            "C10_async_class_a_window_schedule", "C10_async_class_c_window_schedule", "C10_nb_class_a_window_schedule", "C10_schedule_premises_met", "C10_rx2_default_frequency", "C10_protocol_constants"]
 TXRE = re.compile(r"TX pw=(-?\d+) rf=(\d+)/(\d+)/(\d+)/(\d+) rx1=(\d+)/(\d+)/(\d+)/(\d+) rx2=(\d+)/(\d+)/(\d+)/(\d+)")
 # (SF, BW index) of the LoRa data rates per region family, from RP002 (not from the implementation)
 DRS = {
